@@ -7,7 +7,7 @@ from fractions import Fraction
 from .. import allowance as al
 from .. import rules
 from ..effects import Effects
-from ..model import Model, norm
+from ..model import Model, norm, own_returns
 from ..report import Ob, OK, VIOLATED, ERROR, INFO
 from . import c01
 
@@ -128,6 +128,17 @@ def rule_drain(model: Model):
                          for x in ast.walk(s))]
         bump = any(isinstance(s, ast.AugAssign) and norm(s.target) == tcur for s in after)
         ok_b = bool(drain) and bump
+        if not ok_b:
+            # the same count as a for loop: range(cursor + 1, len(shape)) without the bump, or range(cursor, len(shape)) after it
+            for s in after:
+                if isinstance(s, ast.For) and isinstance(s.iter, ast.Call) and norm(s.iter.func) == "range" and len(s.iter.args) == 2 \
+                        and nz.canon(s.iter.args[1]).replace(" ", "") == f"len({shape})" \
+                        and any(isinstance(x, ast.Call) and isinstance(x.func, ast.Attribute) and x.func.attr == "append" and norm(x.func.value) in results
+                                for x in ast.walk(s)):
+                    lo = norm(s.iter.args[0]).replace(" ", "")
+                    bumped_before = any(isinstance(b, ast.AugAssign) and norm(b.target) == tcur for b in after[:after.index(s)])
+                    if (lo in (f"{tcur}+1", f"1+{tcur}") and not bumped_before) or (lo == tcur and bumped_before):
+                        ok_b = True
         obs.append(Ob("DRAIN", k0 + "cores-exhausted", OK if ok_b else VIOLATED, model.where(f, main), f"while {tcur} < len({shape}): append unit core",
                       "remaining unit targets are appended" if ok_b else
                       "when the cores are exhausted the remaining (unit) target modes are not appended: the result has fewer modes than requested"))
@@ -237,13 +248,25 @@ def check(model: Model, tier: str):
                           " | ".join(m.show() for m in ms) if ok else
                           f"split tolerance {[m.show() for m in ms]} is not divided among the dfin-1 bonds of the result (need exponent <= -1/2)"))
     # final rounding with the caller's eps
-    rets = [n for n in ast.walk(f.node) if isinstance(n, ast.Return)]
+    rets = [n for n in own_returns(f.node)]
     okr = rets and isinstance(rets[-1].value, ast.Call) and isinstance(rets[-1].value.func, ast.Attribute) and rets[-1].value.func.attr == "round" \
         and rets[-1].value.args and norm(rets[-1].value.args[0]) == "eps"
     obs.append(Ob("E4-EPSFLOW", "_extras.reshape:E4-EPSFLOW:final-round", OK if okr else VIOLATED, model.where(f), "return TT(cores_new).round(eps)",
                   "one final rounding with the caller's eps" if okr else "the final rounding does not use the caller's eps"))
     obs += rule_gauge(model)
     obs += rule_exact_split(model)
+    # the caller's rmax reaches every split (added after seed S4-C10-2: a split that falls back on to_tt's own default cap of 100 truncates)
+    fr = model.func("_extras.reshape")
+    for q in ("torchtt._decomposition.to_tt", "torchtt._decomposition.mat_to_tt"):
+        for i, call in enumerate(al.find_calls(model, fr, q)):
+            cal = model.functions[q].params()
+            idx = cal.index("rmax") if "rmax" in cal else None
+            arg = call.args[idx] if idx is not None and idx < len(call.args) else next((kw.value for kw in call.keywords if kw.arg == "rmax"), None)
+            passes = isinstance(arg, ast.Name) and arg.id in fr.params()
+            obs.append(Ob("E4-EPSFLOW", f"_extras.reshape:E4-EPSFLOW:rmax:{q.rsplit('.', 1)[-1]}:{i}", OK if passes else VIOLATED, model.where(fr, call), norm(call)[:90],
+                          "the caller's rmax is handed to the split" if passes else
+                          f"this split does not receive the caller's rmax (argument: {norm(arg) if arg is not None else 'missing - the callee default applies'}): ranks "
+                          "above the callee's default cap are cut although the caller allowed them, and the eps bound is lost"))
     from ..e5 import obligations as e5ob
     obs += e5ob.for_property(model, "C10", tier)      # the contract of one core exchange of permute, on every path of the branch
     from ..adjoint import rule_adjoint, self_fixture
